@@ -93,7 +93,7 @@ STRINGS = st.builds(
     lambda p, q, body: p + q + body + q,
     st.sampled_from(['', 'b', 'B', 'r', 'R', 'u', 'U', 'rb', 'bR', 'Rb', 'BR', 'br']),
     st.sampled_from(['"', "'", '"""', "'''"]),
-    st.sampled_from(['', 's', 'a b', '\\\\n', '\\\\', 'x\\\\\\ny', '{x}', '\\\\x41', '#', '%s', '\\\\t', 'it' + chr(92) + chr(92) + 's']))
+    st.sampled_from(['', 's', 'a b', '\\\\n', '\\\\', 'x\\\\\\ny', '{x}', '\\\\x41', '#', '%s', '\\\\t', 'it' + chr(92) + chr(92) + 's', chr(92) + 'x', chr(92) + 'u12', chr(92) + 'N', 'C:' + chr(92) + 'Users' + chr(92) + 'me', chr(92) + 'U0001', chr(92) + 'd+']))
 FSTRINGS = st.builds(
     lambda p, q, parts: p + q + ''.join(parts) + q,
     st.sampled_from(['f', 'F', 'rf', 'fr', 'Rf', 'FR']),
